@@ -31,6 +31,7 @@ fn setup(ctx: &mut Ctx) {
     ctx.floor("strtab:must-fail", 20);
     ctx.floor("entsize-clause:rejected", 200);
     ctx.floor("threshold-count-file", 200);
+    ctx.floor("extended-numbering-cuts:prefixes", 100_000);
     for e in Enc::ALL {
         ctx.floor(&format!("enc:{}", e.name()), 100);
     }
@@ -45,6 +46,7 @@ fn strata(t: Tier) -> Vec<Stratum> {
         ex("threshold-counts", scale(t, 2 * threshold_counts().len() as u64, 2 * threshold_counts().len() as u64, 0)),
         st("table-placement", scale(t, 60_000, 600_000, 4)),
         st("entsize-clause", scale(t, 90_000, 900_000, 4)),
+        st("extended-numbering-cuts", scale(t, 20_000, 200_000, 2)),
     ]
 }
 
@@ -444,6 +446,56 @@ fn run(ctx: &mut Ctx, si: usize, case: u64) {
             let mut ext = c.bytes.clone();
             ext.extend_from_slice(&ctx.rng.bytes(70));
             judge_open(ctx, &ext, "declared count + 1 with appended bytes");
+        }
+        5 => {
+            // the counts live in shdr[0]: every way of declaring them (e_shnum == 0 with sh_size 0 / n / more, e_phnum ==
+            // 0xffff with sh_info), and the file cut at every byte of shdr[0] and of the entry behind it
+            let enc = Enc::ALL[ctx.rng.usize_below(4)];
+            let mut o = GenOpts::standard();
+            o.max_syms = 3;
+            o.density = 3;
+            o.weird_views = false;
+            let (mut spec, _m) = gen_object(&mut ctx.rng, enc, &o);
+            spec.trailing = 0;
+            spec.has_phdrs = true;
+            spec.order = if ctx.rng.bool() { [Part::Bodies, Part::Phdrs, Part::Shdrs] } else { [Part::Phdrs, Part::Bodies, Part::Shdrs] };
+            if spec.segs.is_empty() {
+                spec.filler_segments = 1 + ctx.rng.usize_below(3);
+            }
+            let mut b = build(&spec, &mut ctx.rng);
+            if !self_consistent(ctx, &b) {
+                return;
+            }
+            let n = b.shnum as u64;
+            let mut log = Vec::new();
+            if ctx.rng.chance(3, 4) {
+                b.poke("ehdr.e_shnum", 0);
+                let v = [0, n, n, n.saturating_sub(1), n + 1, 1][ctx.rng.usize_below(6)];
+                b.poke("shdr[0].sh_size", v);
+                log.push(format!("e_shnum=0, shdr[0].sh_size={v}"));
+            }
+            if ctx.rng.chance(1, 2) {
+                b.poke("ehdr.e_phnum", 0xffff);
+                let v = [0, b.phnum as u64, b.phnum as u64 + 1, 1][ctx.rng.usize_below(4)];
+                b.poke("shdr[0].sh_info", v);
+                log.push(format!("e_phnum=0xffff, shdr[0].sh_info={v}"));
+            }
+            if ctx.rng.chance(1, 4) {
+                b.poke("ehdr.e_shstrndx", [0u64, 0xffff][ctx.rng.usize_below(2)]);
+            }
+            ctx.nontrivial_bytes(&b.bytes);
+            ctx.count("extended-numbering-cuts:files");
+            let shsz = size_of(St::Shdr, enc.c64);
+            let from = b.shoff as usize;
+            let to = (from + 2 * shsz + 1).min(b.bytes.len());
+            ctx.sample(|| format!("{} {:?}: cut at every length in {from}..={to} (shdr table at {from}, file {} bytes)", enc.name(), log, b.bytes.len()));
+            judge_open(ctx, &b.bytes, &format!("extended numbering {:?}", log));
+            for l in from.saturating_sub(1)..=to {
+                ctx.count("extended-numbering-cuts:prefixes");
+                if !judge_open(ctx, &b.bytes[..l], &format!("extended numbering {:?}, file cut to {l} bytes (shdr[0] at {from}..{})", log, from + shsz)) {
+                    return;
+                }
+            }
         }
         _ => entsize_clause(ctx),
     }
